@@ -594,6 +594,40 @@ theorem split_rangeDo_is_refuted :
     Shard.rangeDoIn false ⟨1, 0, .setAdd 100⟩ [⟨7, 1, 0⟩] (fun s => s.set 0 ⟨7, 2, 0⟩ []) = [⟨7, 101, 0⟩] ∧
     Shard.rangeDoIn true ⟨1, 0, .setAdd 100⟩ [⟨7, 1, 0⟩] (fun s => s.set 0 ⟨7, 2, 0⟩ []) = [⟨7, 2, 0⟩] := by decide
 
+/-! ## `set` makes room on the shard it inserts into -/
+
+/-- read from the source: `shard.set` is lock, deferred unlock, eviction loop on the current map, insert - nothing before -/
+def setDecidesWhenInserting : Bool :=
+  Gen.Facts.c11SetEvictsBeforeInsert == some true && Gen.Facts.c11OneCriticalSectionPerMethod == some true
+
+/-- **Whatever other goroutines do to the shard around a `Set` (remove the key, refill the shard, flush, sweep), the
+shard holds at most its maximum when the `Set` returns**: the method is the atomic `Shard.set` applied to the shard as
+the others left it. Over all shards, entries, victims and all interfering functions `between`. `by decide` fails if `set`
+consults the shard before its critical section. -/
+theorem set_is_one_step (max : Nat) (hmax : 0 < max) (s : Shard) (e : Entry) (vs : List Nat) (between : Shard → Shard) :
+    Shard.setIn setDecidesWhenInserting max s e vs between = (between s).set max e vs ∧
+    (Shard.setIn setDecidesWhenInserting max s e vs between).length ≤ max := by
+  have h : setDecidesWhenInserting = true := by decide
+  rw [h]
+  exact ⟨rfl, set_length_le max hmax _ e vs⟩
+
+/-- a `set` that skips the eviction for a key it saw stored before it took the lock keeps the bound only as long as
+nobody interferes: without interference the shard does not grow ... -/
+theorem stale_set_alone_keeps_length (max : Nat) (s : Shard) (e : Entry) (vs : List Nat)
+    (h : (s.lookup e.key).isSome) : (Shard.setIn false max s e vs id).length ≤ s.length := by
+  simp only [Shard.setIn, h, Bool.not_false, Bool.and_self, if_true, id, List.length_cons]
+  exact remove_length_lt s e.key h
+
+/-- ... but it is refuted under interference: a full shard (maximum 2) holding keys 1 and 2, `Set(1)` looks (stored),
+then key 1 is removed and key 3 stored (both bound-preserving steps of the model: the shard is full again, 2 entries),
+then the insert: 3 entries. The as-built `set` leaves 2. The same with a flush and two stores in the window. -/
+theorem stale_set_is_refuted :
+    ((fun (s : Shard) => (s.remove 1).set 2 ⟨3, 30, 9⟩ []) [⟨1, 10, 9⟩, ⟨2, 20, 9⟩]).length = 2 ∧
+    (Shard.setIn false 2 [⟨1, 10, 9⟩, ⟨2, 20, 9⟩] ⟨1, 11, 9⟩ [] (fun s => (s.remove 1).set 2 ⟨3, 30, 9⟩ [])).length = 3 ∧
+    (Shard.setIn true 2 [⟨1, 10, 9⟩, ⟨2, 20, 9⟩] ⟨1, 11, 9⟩ [] (fun s => (s.remove 1).set 2 ⟨3, 30, 9⟩ [])).length = 2 ∧
+    (Shard.setIn false 2 [⟨1, 10, 9⟩, ⟨2, 20, 9⟩] ⟨1, 11, 9⟩ [] (fun _ => (Shard.set 2 [] ⟨3, 30, 9⟩ []).set 2 ⟨4, 40, 9⟩ [])).length = 3 ∧
+    (Shard.setIn true 2 [⟨1, 10, 9⟩, ⟨2, 20, 9⟩] ⟨1, 11, 9⟩ [] (fun _ => (Shard.set 2 [] ⟨3, 30, 9⟩ []).set 2 ⟨4, 40, 9⟩ [])).length = 2 := by decide
+
 /-! ## pkg/lru and pkg/concurrent_lru -/
 
 theorem lru_lookup_mem (q : Lru) (k : Nat) (e : KV) (h : q.lookup k = some e) : e ∈ q ∧ e.key = k := by
